@@ -27,6 +27,32 @@ def pen_vector(kind, n):
     return tuple([1.0, 0.1, 0.0, 0.5, 0.3, 0.7][:n])
 
 
+# kind of variable-free constraint -> does the model stay feasible
+CONST_KINDS = {"py_true": True, "py_false": False, "pysum_ge1": False, "pysum_le1": True, "quicksum_ge1": False,
+               "quicksum_le1": True, "quicksum_ge0": True, "quicksum_le_m1": False}
+
+
+def add_constant_constraint(m, which):
+    if which == "py_true":
+        m.addConstr(0 <= 1, name="K")
+    elif which == "py_false":
+        m.addConstr(0 >= 1, name="K")
+    elif which == "pysum_ge1":
+        m.addConstr(sum(x for x in []) >= 1, name="K")
+    elif which == "pysum_le1":
+        m.addConstr(sum(x for x in []) <= 1, name="K")
+    elif which == "quicksum_ge1":
+        m.addConstr(m.quicksum([]) >= 1, name="K")
+    elif which == "quicksum_le1":
+        m.addConstr(m.quicksum([]) <= 1, name="K")
+    elif which == "quicksum_ge0":
+        m.addConstr(m.quicksum(x for x in []) >= 0, name="K")
+    elif which == "quicksum_le_m1":
+        m.addConstr(m.quicksum([]) <= -1, name="K")
+    else:
+        raise ValueError(which)
+
+
 def coeff_vectors(n):
     return [v for v in itertools.product((0, 1), repeat=n) if any(v)]
 
@@ -80,6 +106,13 @@ class C05(Check):
                 for cv in coeff_vectors(n):
                     for t in (1, 2, 3):
                         yield ("intmix", n, which, cv, t)
+        # constraints whose expression has no variable left (an empty sum compared with a constant - what the
+        # cardinality rows of aldy's models become when no candidate allele is left for a configuration)
+        for n in (2, 3):
+            for cv in coeff_vectors(n):
+                for t in (1, 2):
+                    for which in CONST_KINDS:
+                        yield ("const", n, cv, t, which)
         menu = ilp_ref.NAME_MENU
         for a in menu:
             yield ("names", (a,))
@@ -137,7 +170,25 @@ class C05(Check):
             return self._eval_abs(st)
         if kind == "intmix":
             return self._eval_intmix(st)
+        if kind == "const":
+            return self._eval_const(st)
         return self._eval_names(st)
+
+    def _eval_const(self, st):
+        """Base model (one equality row, penalty 0.1 per binary) plus one variable-free constraint: a true one changes
+        nothing, a false one makes the model infeasible (nothing may be yielded)."""
+        _, n, cv, t, which = st
+        base = ("model", n, ((cv, t),), None, False, "tenth", 0.5, None, None)
+        m, X = self._build(base, before_objective=lambda m: add_constant_constraint(m, which))
+        names = [m.varName(x) for x in X]
+        ys = [(status, obj, tuple(sol)) for status, obj, sol in m.solutions(0.5)]
+        v = []
+        if CONST_KINDS[which]:
+            table = ilp_ref.enumerate_model(n, ((cv, t),), None, False, pen_vector("tenth", n), None)
+            v = [("const/" + sig, msg) for sig, msg in ilp_ref.judge_enumeration(table, names, ys, 0.5, None, TOL)]
+        elif ys:
+            v.append(("const/solution-for-infeasible", f"{st}: a constant-false constraint was added, yet {ys[:2]} is yielded"))
+        return Outcome(v, key=("const", which, len(ys)), nontrivial=True, note={"model": st, "yields": [(round(o, 3), s2) for _, o, s2 in ys][:3]})
 
     def _eval_intmix(self, st):
         """X_which is an integer in 0..2; a solution names the binaries set to 1 only, and the exclusion cut ranges
@@ -179,7 +230,7 @@ class C05(Check):
                 v.append(("intmix/outside-gap", f"{st}: {o} > 1.5*{best}"))
         return Outcome(v, key=("intmix", len(ys), round(best, 2)), nontrivial=True, note={"model": st, "yields": ys[:3]})
 
-    def _build(self, st):
+    def _build(self, st, before_objective=None):
         from aldy import lpinterface
 
         _, n, rows, card, chain, pen, gap, limit, eb = st
@@ -202,6 +253,8 @@ class C05(Check):
         if chain:
             for j in range(1, n):
                 m.addConstr(X[j] <= X[j - 1], name=f"CORD_{j}")
+        if before_objective:
+            before_objective(m)
         pv = pen_vector(pen, n)
         obj = m.abssum(errs) + m.quicksum(pv[j] * X[j] for j in range(n))
         m.setObjective(obj)
